@@ -15,7 +15,12 @@ PROPS["C19"] = dict(
          "converted its error for the wire, or it arrived from a downstream gRPC call, and %w wrapping / side branches / EmbedObject continue "
          "above it before GRPCWrap is applied again at the top). The same checks apply to every such tree (unit trees: every list over 18 level "
          "forms = plain fmt, GRPCWrap, {two-%w fmt, Join} x {class branch first, last} x 4 side kinds, to depth 3 (thorough 4) x 10 classes x "
-         "(no object + object at every level); rapid: 60% of the chains draw each level from plain 30% / GRPCWrap 20% / several-%w 30% / Join 20%). A "
+         "(no object + object at every level); rapid: 60% of the chains draw each level from plain 30% / GRPCWrap 20% / several-%w 30% / Join 20%). DEEP CHAINS ('at any depth'): a level entry may carry a repeat count (Rep: the level is applied Rep+1 times), so a chain has up to thousands of Unwrap links between the error "
+         "handed to GRPCWrap and the class. Unit deep: links = 2^k-1, 2^k, 2^k+1 for 32..4096 (thorough ..16384), 10^k-1..10^k+1 for 100, 1000 (thorough 10000), 2000, 3000, 5000 x 10 classes x shapes "
+         "(bare %w run, run with a text, a several-%w or Join node in the middle of the run, the run below / above an inner GRPCWrap level, forks all the way for <= 257 links, Join forks among them up to 65) x "
+         "(no object, object innermost, object outermost); rapid: one single chain in ten (thorough: in twenty; one batch chain in thirty) turns one or two of its levels into runs of 8..4096 links (log-uniform, or 2^k/10^k +-1; runs of several-%w levels <= 200, of Join levels <= 40 (a Join renders its whole message again on every Error() call); "
+         "texts of <= 2 bytes per side, none for runs above 512 links, because the message is copied at every link; no length target). OBJECT SIZES: a chain may carry an object target - the object is padded (string / many elements / many fields) until its "
+         "JSON text between the markers has exactly that many bytes; unit deep runs every multiple of 512 up to 8 KiB (thorough 32 KiB) -8..+2 x 3 pad places x embedding innermost/outermost, rapid 5% of the single chains with an object. A "
          "chain may carry a target length: err.Error() of the finished chain is padded with ASCII to exactly that many bytes, the "
          "padding sitting in a wrap text inside or outside the embedding, in the object's string, in many array elements or in "
          "many fields (systematic: 19 targets 100..65537 around 256/1024/4096/16384/65536 x 5 places x embedding levels; rapid: "
@@ -52,6 +57,7 @@ PROPS["C19"] = dict(
         dict(name="exhaustive", run="^TestC19Exhaustive$", shards=(16, 16), timeout=(200, 1200)),
         dict(name="trees", run="^TestC19ExhaustiveTrees$", shards=(8, 16), timeout=(200, 1200)),
         dict(name="rapid", run="^TestC19Rapid$", checks=(5000, 100000), shards=(2, 16), timeout=(200, 1200)),
+        dict(name="deep", run="^TestC19Deep$", shards=(4, 16), timeout=(200, 1200)),
     ],
 )
 
@@ -63,5 +69,6 @@ LEVEL_TEXT["C19"] = (
     "every other class, idempotence of GRPCWrap and object extraction. No counterexample among the cases counted in the evidence; "
     "error trees built with several %w verbs and errors.Join around one class (side branches holding context errors, io.EOF, plain errors) "
     "and layered chains with GRPCWrap at inner levels are enumerated to depth 3 as well; "
-    "not a proof for other wrapping forms (custom error types, several classes in one tree) or deeper chains."
+    "chains of up to 5000 links (16385 in the thorough tier) are run at depths around every power of two and ten; "
+    "not a proof for other wrapping forms (custom error types, several classes in one tree) or still deeper chains."
 )
